@@ -132,6 +132,7 @@ Proof.
   pose proof (le_dec_lt [n0; n1; n2; n3] E0) as Hl. cbn [length] in Hl.
   change (256 ^ N.of_nat 4) with (2 ^ 32) in Hl.
   split; [|exact Hl].
+  change (255 :: n0 :: 0 :: n1 :: 0 :: n2 :: 0 :: n3 :: zeros 23 = key_svc_idx 255 (le_dec [n0; n1; n2; n3])).
   unfold key_svc_idx. rewrite Hr. reflexivity.
 Qed.
 
@@ -158,6 +159,10 @@ Lemma key_svc_idx_inj s s' : s < 2 ^ 32 -> s' < 2 ^ 32 -> key_svc_idx 255 s = ke
 Proof.
   intros Hs Hs' E. pose proof (info_sid_key s Hs) as E1. rewrite E, (info_sid_key s' Hs') in E1. congruence.
 Qed.
+
+Ltac perm_mid :=
+  rewrite <- ?app_assoc; cbn [app]; rewrite <- ?app_assoc;
+  first [reflexivity | symmetry; apply Permutation_middle | apply Permutation_middle].
 
 Section StateKVProofs.
   Variable H : bytes -> bytes.
@@ -193,7 +198,7 @@ Section StateKVProofs.
   Notation phase1 := (phase1 H dec_comp dec_info (tslots := tslots)).
   Notation attach_pre := (attach_pre H dec_ts).
   Notation attach_all := (attach_all H dec_ts (sinfo := sinfo)).
-  Notation finalize := (finalize zero_comp zero_info).
+  Notation finalize := (finalize zero_comp zero_info (tslots := tslots)).
   Notation finalize_acc := (finalize_acc zero_info (tslots := tslots)).
   Notation comp_kv := (comp_kv enc_comp).
   Notation info_kv := (info_kv enc_info).
@@ -201,7 +206,7 @@ Section StateKVProofs.
   Notation pre_kv := (pre_kv H).
   Notation lk_kv := (lk_kv H enc_ts).
   Notation upd_acc := (upd_acc (sinfo := sinfo) (tslots := tslots)).
-  Notation empty_pacc := (empty_pacc sinfo tslots).
+  Notation empty_pacc := (empty_pacc (sinfo := sinfo) (tslots := tslots)).
 
   (* ============================================================================================ *)
   (* Part A: whatever is imported, re-exporting the parsed state next to the raw entries gives back
@@ -229,18 +234,21 @@ Section StateKVProofs.
     rewrite (Hfg i) by now left. f_equal. apply IH. intros j Hj. apply Hfg. now right.
   Qed.
 
+  Lemma emit_comps_cons f j l :
+    emit_comps f (j :: l) = (match f j with Some c => [comp_kv j c] | None => [] end) ++ emit_comps f l.
+  Proof. reflexivity. Qed.
+
   Lemma emit_comps_set f i c l :
     NoDup l -> In i l -> f i = None ->
     Permutation (emit_comps (fun j => if j =? i then Some c else f j) l) (comp_kv i c :: emit_comps f l).
   Proof.
     induction l as [|j l IH]; intros Hn Hi Hf; [contradiction|].
-    inversion Hn; subst. cbn [emit_comps flat_map].
+    inversion Hn; subst. rewrite !emit_comps_cons.
     destruct (N.eqb_spec j i) as [->|Hne].
     - rewrite Hf. cbn [app].
       rewrite (emit_comps_ext _ f l); [reflexivity|].
       intros k Hk. destruct (N.eqb_spec k i) as [->|]; [contradiction|reflexivity].
     - destruct Hi as [->|Hi]; [contradiction|].
-      fold (emit_comps (fun j0 => if j0 =? i then Some c else f j0) l). fold (emit_comps f l).
       rewrite (IH H3 Hi Hf). apply Permutation_sym, Permutation_middle.
   Qed.
 
@@ -271,7 +279,7 @@ Section StateKVProofs.
   Lemma in_emit_delta sa d kvp : In sa d -> In kvp (emit_pacc sa) -> In kvp (flat_map emit_pacc d).
   Proof. intros. apply in_flat_map. eauto. Qed.
 
-  Lemma emit_empty : emit (empty_pstate comp sinfo tslots) = [].
+  Lemma emit_empty : emit empty_pstate = [].
   Proof. reflexivity. Qed.
 
   (* one key-value of the first loop *)
@@ -299,7 +307,7 @@ Section StateKVProofs.
         apply info_canon in Ed. subst v.
         unfold emit. cbn [ps_comp ps_delta].
         rewrite (upd_acc_perm s (set_info x) (ps_delta ps) [info_kv s x]).
-        * cbn [app]. rewrite <- !app_assoc. rewrite <- Permutation_middle. reflexivity.
+        * perm_mid.
         * intros a Ha. unfold emit_pacc. cbn [fst snd set_info p_info p_pre p_lk].
           assert (Hnone : p_info a = None).
           { destruct Ha as [Ha|[_ ->]]; [|reflexivity].
@@ -313,7 +321,7 @@ Section StateKVProofs.
         * inversion Hs; subst; clear Hs. apply bytes_eqb_eq in Ep.
           unfold emit. cbn [ps_comp ps_delta].
           rewrite (upd_acc_perm (sid_type3 k) (add_pre (H v) v) (ps_delta ps) [(k, v)]).
-          -- cbn [app]. rewrite <- !app_assoc. rewrite <- Permutation_middle. reflexivity.
+          -- perm_mid.
           -- intros a _. unfold emit_pacc. cbn [fst snd add_pre p_info p_pre p_lk map].
              unfold StateKV.pre_kv at 1. cbn [fst snd]. rewrite <- Ep.
              rewrite <- Permutation_middle. reflexivity.
